@@ -14,7 +14,11 @@
  *   add th BR BC p1 p2 <...>
  *   add ln BR BC s11 s12 s21 s22 p1 p2 <...>
  *   add mm BR BC SR SC <SR*SC slots> NMAP <NMAP ports> <...>        NMAP = 0: NULL port map
- *   solve
+ *   solve                     vnacal_new_solve; the line also reports the TRL dispatch test, the number of
+ *                             allocation requests of the call and, for every entry of
+ *                             vn_unknown_parameter_list in order, slot:vpmr_frequencies:gamma-vector-present
+ *                             (pv=) and whether its vectors are bitwise what they were before the call (pvsame=)
+ *   solvefail N               the same with the N-th allocation request of the call failing (allocwrap)
  *   terms                     print the error terms of vnp->vn_calibration
  *   apply <P*P complex>       vnacal_add_calibration + vnacal_apply_m + vnacal_delete_calibration
  *   end                       free the scenario, report live blocks
@@ -37,6 +41,9 @@
 
 extern void verif_alloc_track(int on);
 extern long verif_live_blocks(void);
+extern void verif_alloc_reset(long fail_at);
+extern long verif_alloc_count;
+extern long verif_failed;
 
 #define MAXTOK 4096
 static char *tok[MAXTOK];
@@ -158,6 +165,36 @@ static uint64_t cal_digest(void)
     return h;
 }
 
+/* model slot of a parameter handle (the unknown / correlated parameters of a script have distinct handles) */
+static int slot_of(int handle)
+{
+    for (int k = 255; k >= 0; --k)
+	if (slots[k] == handle)
+	    return k;
+    return -1;
+}
+
+#define MAXUNK 64
+static uint64_t param_digest(const vnacal_parameter_t *p)
+{
+    uint64_t h = 1469598103934665603ULL;
+    h = fnvi(h, p->vpmr_frequencies);
+    h = fnvi(h, p->vpmr_frequency_vector != NULL);
+    h = fnvi(h, p->vpmr_gamma_vector != NULL);
+    if (p->vpmr_frequency_vector != NULL)
+	h = fnv(h, p->vpmr_frequency_vector, p->vpmr_frequencies * sizeof(double));
+    if (p->vpmr_gamma_vector != NULL)
+	h = fnv(h, p->vpmr_gamma_vector, p->vpmr_frequencies * sizeof(double complex));
+    return h;
+}
+static int unknown_digests(uint64_t *d)
+{
+    int n = 0;
+    for (vnacal_new_parameter_t *q = vnp->vn_unknown_parameter_list; q != NULL && n < MAXUNK; q = q->vnpr_next_unknown)
+	d[n++] = param_digest(q->vnpr_parameter);
+    return n;
+}
+
 static void print_counts(void)
 {
     const vnacal_layout_t *vlp = &vnp->vn_layout;
@@ -206,6 +243,7 @@ int main(void)
 	    tn = next();
 	    cur_r = nexti(); cur_c = nexti(); cur_f = nexti();
 	    callbacks = 0;
+	    for (int k = 0; k < 256; ++k) slots[k] = -1;
 	    verif_alloc_track(1);
 	    vcp = vnacal_create(error_fn, NULL);
 	    if (vcp == NULL) { printf("N create-failed\n"); verif_alloc_track(0); continue; }
@@ -299,24 +337,45 @@ int main(void)
 	    printf("A rc=%d errno=%s cb=%d", rc, rc == 0 ? "0" : ename(errno), callbacks - cb0);
 	    print_counts();
 	    printf(" calsame=%d dg=%016llx\n", cal_digest() == cal0, (unsigned long long)state_digest());
-	} else if (strcmp(op, "solve") == 0) {
+	} else if (strcmp(op, "solve") == 0 || strcmp(op, "solvefail") == 0) {
 	    int rc, e, cb0 = callbacks;
-	    long live0, live1;
+	    long live0, live1, allocs, failed;
+	    long fail_n = strcmp(op, "solvefail") == 0 ? atol(next()) : 0;
 	    uint64_t d0 = state_digest(), c0 = cal_digest();
+	    uint64_t pd0[MAXUNK], pd1[MAXUNK];
+	    int np0 = unknown_digests(pd0), np1, wbc = 0, trl;
 	    const vnacal_calibration_t *p0 = vnp->vn_calibration;
+	    vnacal_new_trl_indices_t vnti;
+	    for (vnacal_new_parameter_t *q = vnp->vn_unknown_parameter_list; q != NULL; q = q->vnpr_next_unknown)
+		if (q->vnpr_parameter->vpmr_frequencies != vnp->vn_frequencies)
+		    ++wbc;		/* write-back will calloc a frequency vector for this one */
+	    trl = _vnacal_new_solve_is_trl(vnp, &vnti) ? 1 : 0;
 	    errno = stale_errno();
+	    verif_alloc_reset(fail_n);
 	    verif_alloc_track(1);
 	    live0 = verif_live_blocks();
 	    rc = vnacal_new_solve(vnp);
 	    e = errno;
 	    live1 = verif_live_blocks();
 	    verif_alloc_track(0);
-	    printf("S rc=%d errno=%s cb=%d cat=%d cal=%d calsame=%d stsame=%d live=%ld",
+	    allocs = verif_alloc_count;
+	    failed = verif_failed;
+	    verif_alloc_reset(0);
+	    printf("S rc=%d errno=%s cb=%d cat=%d cal=%d calsame=%d stsame=%d live=%ld trl=%d allocs=%ld failed=%ld wbc=%d",
 		    rc, rc == 0 ? "0" : ename(e), callbacks - cb0, callbacks - cb0 ? last_category : -1,
 		    vnp->vn_calibration != NULL,
 		    vnp->vn_calibration == p0 && cal_digest() == c0,
-		    state_digest() == d0, live1 - live0);
+		    state_digest() == d0, live1 - live0, trl, allocs, failed, wbc);
 	    print_counts();
+	    printf(" pv=");
+	    for (vnacal_new_parameter_t *q = vnp->vn_unknown_parameter_list; q != NULL; q = q->vnpr_next_unknown) {
+		const vnacal_parameter_t *p = q->vnpr_parameter;
+		printf("%d:%d:%d;", slot_of(VNACAL_GET_PARAMETER_INDEX(p)), p->vpmr_frequencies, p->vpmr_gamma_vector != NULL);
+	    }
+	    np1 = unknown_digests(pd1);
+	    printf(" pvsame=");
+	    for (int i = 0; i < np1; ++i)
+		printf("%d", i < np0 && pd0[i] == pd1[i]);
 	    printf("\n");
 	} else if (strcmp(op, "terms") == 0) {
 	    const vnacal_calibration_t *calp = vnp->vn_calibration;
